@@ -3,6 +3,10 @@
 # usage: build.sh [targets...]   (no target = everything).  Serialised with flock.
 set -e
 cd "$(dirname "$0")"
+# fast path for a targeted build: nothing to do (make -q) -> do not queue for the lock
+if [ $# -gt 0 ] && [ -f Makefile.coq ] && [ -d theories/Gen ]; then
+  if make -q -f Makefile.coq "$@" > /dev/null 2>&1; then exit 0; fi
+fi
 exec 9> .build.lock
 flock 9
 # regenerate the MiniPy terms of the translated source units from the working tree (theories/Gen/*.v)
